@@ -44,7 +44,21 @@ inductive Arg where
   | int (n : Int)
   | str (utf8 : List Nat)
   | none | true | false
+  | float (bits : Nat)        -- a Python float, given by the 64 bits of its IEEE-754 double
+  | hashed (h : Int)          -- any other hashable object (sorts, rounding modes): the 8 signed bytes of `hash(arg)`
   deriving DecidableEq, Repr, Inhabited
+
+/-- is the double with these bits a NaN? -/
+def isNaNBits (bits : Nat) : Bool := (bits / 4503599627370496) % 2048 == 2047 && bits % 4503599627370496 != 0
+
+/-- `_arg_serialize(float)`: every NaN is `b"nan"`, the infinities and `-0.0` are spelled out, any other value is its
+`struct.pack("d", ·)` image (8 bytes, little endian on the platforms claripy runs on) -/
+def floatBytes (bits : Nat) : List Nat :=
+  if isNaNBits bits then [110, 97, 110]
+  else if bits = 9218868437227405312 then [105, 110, 102]
+  else if bits = 18442240474082181120 then [45, 105, 110, 102]
+  else if bits = 9223372036854775808 then [45, 48, 46, 48]
+  else natBytes 8 bits
 
 def argBytes : Arg → List Nat
   | .child h => natBytes 8 h
@@ -53,6 +67,8 @@ def argBytes : Arg → List Nat
   | .none => [0x0f]
   | .true => [0x1f]
   | .false => [0x2e]
+  | .float b => floatBytes b
+  | .hashed h => natBytes 8 (h % (256 ^ 8 : Int)).toNat
 
 /-- `_ast_serialize(op, args, annotations, length)`; annotations enter through `hash(annotation)` as 8 signed bytes -/
 def astSerialize (op : List Nat) (args : List Arg) (annoHashes : List Int) (length : Option Nat) : List Nat :=
